@@ -1,9 +1,11 @@
 #include "../engine/vx.h"
-extern const vx_harness h_once, h_sema, h_q01, h_q02, h_q03, h_q04, h_q05, h_group;
+extern const vx_harness h_once, h_sema, h_q01, h_q02, h_q03, h_q04, h_q05, h_group, h_source, h_suspend;
 const vx_harness *const vx_harnesses[] = {
 	&h_once,
 	&h_sema,
 	&h_q01, &h_q02, &h_q03, &h_q04, &h_q05,
 	&h_group,
+	&h_source,
+	&h_suspend,
 	0
 };
